@@ -443,4 +443,9 @@ class ProgressBar(object):
         return self._max
 
     def _formatter_percent(self):
+        if self._max:
+            # Exact integer arithmetic: as floats, 57 / 100 * 100 is
+            # 56.99999999999999 and would be displayed as 56%
+            return int(self._step * 100 // self._max)
+
         return int(math.floor(self._percent * 100))
